@@ -245,6 +245,7 @@ func runC03(c *kc.Ctx) {
 					mcs = append(mcs, mc{g, "grp " + f.model + " " + p.String(), st.snapshot(g)})
 				}
 			}
+			c03MutatorHistory(c, g, rng.Fork("mutators"))
 		}
 	}
 	lines := make([]string, len(mcs))
@@ -261,6 +262,103 @@ func runC03(c *kc.Ctx) {
 			// decode∘encode round trip passed above, so the difference is in the arithmetic (C01) or the model.
 			c.Unshown("model-bytes:"+x.g.Name, "implementation bytes differ from the reference encoding of the model value",
 				map[string]string{"group": x.g.Name, "line": x.line, "impl": x.got, "model": outs[i]})
+		}
+	}
+}
+
+// c03MutatorHistory: encode – give the SAME object a new value – encode again, for every method that writes a
+// point (arithmetic, constants, Set, Pick, Embed, Hash, the decoders). The second encoding must be the encoding
+// of the new value: equal to what a fresh object given the same value encodes to, and decoding to a point Equal
+// to the object. (An encoding is a read: nothing it leaves behind may survive a later write.)
+func c03MutatorHistory(c *kc.Ctx, g *groups.G, rng *kc.Rng) {
+	G := g.Group
+	cp := groupCaps(g)
+	type hp1 interface {
+		Hash(m []byte) kyber.Point
+	}
+	k := G.Scalar().Pick(rng)
+	other := G.Point().Mul(G.Scalar().Pick(rng), cp.gen())
+	otherEnc, _ := other.MarshalBinary()
+	seed := rng.U64()
+	msg := rng.Bytes(20)
+	type mut struct {
+		name string
+		f    func(r, src kyber.Point) kyber.Point // the method's result (the receiver, for every method that sets it)
+	}
+	muts := []mut{
+		{"Null", func(r, _ kyber.Point) kyber.Point { return r.Null() }},
+		{"Set", func(r, _ kyber.Point) kyber.Point { return r.Set(other) }},
+		{"Add", func(r, src kyber.Point) kyber.Point { return r.Add(src, other) }},
+		{"Add(other, self)", func(r, src kyber.Point) kyber.Point { return r.Add(other, src) }},
+		{"Sub", func(r, src kyber.Point) kyber.Point { return r.Sub(src, other) }},
+		{"Neg", func(r, src kyber.Point) kyber.Point { return r.Neg(src) }},
+		{"Mul", func(r, src kyber.Point) kyber.Point { return r.Mul(k, src) }},
+		{"Pick", func(r, _ kyber.Point) kyber.Point { return r.Pick(kc.NewRng(seed)) }},
+		{"UnmarshalBinary", func(r, _ kyber.Point) kyber.Point { _ = r.UnmarshalBinary(otherEnc); return r }},
+		{"UnmarshalFrom", func(r, _ kyber.Point) kyber.Point { _, _ = r.UnmarshalFrom(bytes.NewReader(otherEnc)); return r }},
+	}
+	if cp.base {
+		muts = append(muts, mut{"Base", func(r, _ kyber.Point) kyber.Point { return r.Base() }}, mut{"Mul(k, nil)", func(r, _ kyber.Point) kyber.Point { return r.Mul(k, nil) }})
+	}
+	if g.CanEmbed {
+		data := rng.Bytes(G.Point().EmbedLen())
+		muts = append(muts, mut{"Embed", func(r, _ kyber.Point) kyber.Point { return r.Embed(data, kc.NewRng(seed)) }})
+	}
+	if g.CanHash {
+		muts = append(muts, mut{"Hash", func(r, _ kyber.Point) kyber.Point {
+			switch h := r.(type) {
+			case hp1:
+				return h.Hash(msg)
+			case hashable:
+				return h.Hash(msg, "C03-history")
+			}
+			return nil // no Hash method on this point type: skipped (the nil result panics below)
+		}})
+	}
+	for round := 0; round < 2; round++ {
+		for _, m := range muts {
+			m := m
+			res := kc.Recover(func() string {
+				P := G.Point().Mul(G.Scalar().Pick(rng), cp.gen())
+				var first []byte
+				if round == 0 {
+					first, _ = P.MarshalBinary()
+				} else {
+					var bb bytes.Buffer
+					_, _ = P.MarshalTo(&bb)
+					first = bb.Bytes()
+				}
+				old := G.Point()
+				if err := old.UnmarshalBinary(first); err != nil {
+					return "the first encoding does not decode"
+				}
+				want := G.Point()
+				want = m.f(want, old)
+				wb, _ := want.MarshalBinary()
+				P = m.f(P, P)
+				got, _ := P.MarshalBinary()
+				if !bytes.Equal(got, wb) {
+					return fmt.Sprintf("encodes to %x, a fresh object given the same value to %x (encoding before the write: %x)", got, wb, first)
+				}
+				back := G.Point()
+				if err := back.UnmarshalBinary(got); err != nil || !back.Equal(P) {
+					return "the encoding after the write does not decode to the object's value"
+				}
+				if fails := encChecksPoint(g, P); len(fails) > 0 {
+					return fails[0]
+				}
+				return ""
+			})
+			c.Eval(1)
+			c.CountKind("encode-write-encode:" + g.Name)
+			if res == "panic" {
+				continue // unsupported on this group (panics of supported methods belong to C01/C05/C17)
+			}
+			c.Nontrivial("ewe|" + g.Name + "|" + m.name + fmt.Sprint(round))
+			if res != "" {
+				c.Violation("enc:"+g.Name+":encode-write-encode", fmt.Sprintf("%s: a point encoded, then written by %s, then encoded again: %s", g.Name, m.name, res),
+					map[string]string{"group": g.Name, "method": m.name, "failure": res})
+			}
 		}
 	}
 }
